@@ -12,6 +12,7 @@ import importlib
 import logging
 import marshal
 import math
+import re
 import sys
 import tokenize as tk
 
@@ -53,6 +54,9 @@ class FormulaEvalError(PyCelException):
 
 class Tokenizer(tokenizer.Tokenizer):
     """Amend openpyxl tokenizer"""
+
+    # a number in scientific notation may have any number of digits
+    SN_RE = re.compile(r'^([0-9]+\.?[0-9]*|\.[0-9]+)[Ee]$')
 
     def __init__(self, formula):
         super(Tokenizer, self).__init__(formula)
